@@ -55,21 +55,23 @@ def run(tier):
             check.violation({"class": "observer-" + r["what"], "op": r["op"],
                              "after": sorted(set(prior))},
                             {"task": t, "observed": r})
-    # the outputs must not depend on what the process did before either: a sample of the tasks is repeated, each in a process
-    # of its own, and every observer's output is compared with the one obtained in the long-lived worker
-    idx = [i for i, r in enumerate(res) if r.get("ok")]
-    nsample = 150 if tier == "quick" else 2000
-    heavy = [i for i in idx if "namespace {" in tasks[i]["src"] and "resolve" in tasks[i]["hist"]]
-    idx = rng.sample(heavy, min(len(heavy), nsample // 2)) + rng.sample(idx, min(len(idx), nsample // 2))
-    # resolver-heavy files first: they are the ones that can leave something behind
-    cold = core.WorkerPool(core.build_worker(), chunk=1, fresh=True).run([dict(tasks[i]) for i in idx])
-    for i, rc in zip(idx, cold):
-        check.count()
-        if rc.get("ok") and rc.get("outs") != res[i].get("outs"):
-            ops = sorted(o for o in rc["outs"] if rc["outs"][o] != (res[i].get("outs") or {}).get(o))
+    # the outputs must not depend on what the process did before either (operations on OTHER trees are part of "any
+    # sequence of these operations"): resolver-heavy files and a sample of the others are observed one after the other in ONE
+    # long-lived process and, separately, each in a process of its own; every observer's output must be the same
+    allsrc = inputs.programs(check, tier)
+    heavy = [{"src": s, "ver": "7.4"} for s in c14.sample_sources(check, tier, 300 if tier == "quick" else 3000)]
+    sample = heavy + rng.sample(allsrc, min(len(allsrc), 150 if tier == "quick" else 1500))
+    rng.shuffle(sample)
+    xt = [{"op": "history", "src": p["src"], "ver": p["ver"], "hist": ["resolve", "print", "dump11", "traverse", "resolve"]} for p in sample]
+    warm = core.WorkerPool(core.build_worker(), n=1, chunk=len(xt) + 1).run([dict(t) for t in xt])
+    cold = core.WorkerPool(core.build_worker(), chunk=1, fresh=True).run([dict(t) for t in xt])
+    for t, rw, rc in zip(xt, warm, cold):
+        check.count(2)
+        if rw.get("ok") and rc.get("ok") and rc.get("outs") != rw.get("outs"):
+            ops = sorted(o for o in rc["outs"] if rc["outs"][o] != (rw.get("outs") or {}).get(o))
             check.violation({"class": "output-depends-on-process-history", "op": ops[0] if ops else None},
-                            {"task": tasks[i], "fresh_process": rc.get("outs"), "long_lived_process": res[i].get("outs")})
-    check.cov["tasks_repeated_in_fresh_processes"] = len(idx)
+                            {"task": t, "fresh_process": rc.get("outs"), "long_lived_process": rw.get("outs")})
+    check.cov["tasks_repeated_in_fresh_processes"] = len(xt)
     check.cov["traces_validated_against_impl"] = ran
     check.cov["histories"] = len(hs)
     check.cov["programs"] = len(progs)
